@@ -149,6 +149,9 @@ func (t *termer) term(v ssa.Value, d int) string {
 			return "^" + t.term(v.X, d+1)
 		}
 	case *ssa.BinOp:
+		if b, ok := loopIndex(v); ok {
+			return "idx<" + t.term(b, d+1) + ">"
+		}
 		return "(" + t.term(v.X, d+1) + " " + v.Op.String() + " " + t.term(v.Y, d+1) + ")"
 	case *ssa.FieldAddr:
 		return "&" + t.addr(v, d)
@@ -165,6 +168,9 @@ func (t *termer) term(v ssa.Value, d int) string {
 	case *ssa.Call:
 		return t.call(v.Common(), d)
 	case *ssa.Phi:
+		if b, ok := loopIndex(v); ok {
+			return "idx<" + t.term(b, d+1) + ">"
+		}
 		if t.visiting[v] {
 			return "φ" + vname(v)
 		}
@@ -267,4 +273,76 @@ func originOf(f *ssa.Function) *ssa.Function {
 		return o
 	}
 	return f
+}
+
+// loopIndex recognises the index value of a counting loop in either source
+// form — `for i := range xs` / `for i, x := range xs` (SSA: φ(-1, v) + 1) and
+// `for i := 0; i < n; i++` (SSA: φ(0, v + 1)) — and returns the bound it is
+// compared with in the loop header, so both forms print as idx<bound>.
+func loopIndex(v ssa.Value) (ssa.Value, bool) {
+	isConst := func(x ssa.Value, k int64) bool {
+		c, ok := x.(*ssa.Const)
+		return ok && c.Value != nil && c.Value.Kind() == constant.Int && c.Int64() == k
+	}
+	var header *ssa.BasicBlock
+	switch x := v.(type) {
+	case *ssa.BinOp: // range form: v = φ(-1 | v) + 1
+		if x.Op != token.ADD || !isConst(x.Y, 1) {
+			return nil, false
+		}
+		ph, ok := x.X.(*ssa.Phi)
+		if !ok || len(ph.Edges) < 2 {
+			return nil, false
+		}
+		inits := 0
+		for _, e := range ph.Edges {
+			switch {
+			case isConst(e, -1):
+				inits++
+			case e == ssa.Value(x):
+			default:
+				return nil, false
+			}
+		}
+		if inits != 1 {
+			return nil, false
+		}
+		header = ph.Block()
+	case *ssa.Phi: // index form: v = φ(0 | v + 1)
+		if len(x.Edges) < 2 {
+			return nil, false
+		}
+		step := func(e ssa.Value) bool {
+			b, ok := e.(*ssa.BinOp)
+			return ok && b.Op == token.ADD && b.X == ssa.Value(x) && isConst(b.Y, 1)
+		}
+		inits := 0
+		for _, e := range x.Edges {
+			switch {
+			case isConst(e, 0):
+				inits++
+			case step(e):
+			default:
+				return nil, false
+			}
+		}
+		if inits != 1 {
+			return nil, false
+		}
+		header = x.Block()
+	default:
+		return nil, false
+	}
+	if len(header.Instrs) == 0 {
+		return nil, false
+	}
+	ifi, ok := header.Instrs[len(header.Instrs)-1].(*ssa.If)
+	if !ok {
+		return nil, false
+	}
+	cond, ok := ifi.Cond.(*ssa.BinOp)
+	if !ok || cond.Op != token.LSS || cond.X != v {
+		return nil, false
+	}
+	return cond.Y, true
 }
